@@ -50,11 +50,11 @@ CLAIMS["C03"] = {
             "to tunnels (two worked instances: C03_lifted_server_conformance, C03_lifted_client_conformance); locality of each single stimulus (C03_frame_emits_only_own, "
             "C03_frame_touches_only_own, C03_call_local, client counterparts); rejections and stream-level errors never end the tunnel; "
             "with flow control negotiated the receive loop never blocks behind a stream (C03_no_hol, C03_no_hol_client: fc streams are never 'unsupported/blocking'); "
-            "plus two code-level premises regenerated from the sources and decided by the kernel: no blocking call is made under a receive-loop lock (C03_no_blocking_call_under_loop_lock) and no function that can run on a receive-loop goroutine performs a carrier Send (C03_receive_loops_never_send), so bounded transport buffering cannot stall a loop. Tied to the code by " +
+            "plus two code-level premises regenerated from the sources and decided by the kernel: no blocking call is made under a receive-loop lock (C03_no_blocking_call_under_loop_lock) and no function that can run on a receive-loop goroutine performs a carrier Send (C03_receive_loops_never_send), so bounded transport buffering cannot stall a loop; and over the CLOSED model of a whole tunnel with carriers of capacity K>=1 (TunnelModel/Closed.lean): every reading half-stream completes whatever the others do and however many are stalled (C03_stalled_streams_do_not_block_others), no deadlock while one has anything left (C03_no_deadlock_bounded). Tied to the code by the bounded-carrier world (real client + real server over Go channels of capacity 1..64, stalled applications, compared with the closed model's outcome) and by " +
             _W1 + " " + _SRV + " " + _CLI + " with bystander/disturber workloads; monitor: loop-blocked-with-flow-control, tunnel-ended-by-rpc. D8 is an open finding here too.",
     "design_ref": "DESIGN.md A2 (C03)",
-    "note": "Trusted: as C08. Bounded transport buffering is represented by the receive-loop-idle observation (B=1) and the lock-discipline premise, not by a finite-K carrier "
-            "theorem (listed under 'not built' in DESIGN.md A7).",
+    "note": "Trusted: as C08. The closed finite-K model is at frame granularity and abstracts frames other than data and window updates; that the real receive loops behave like its "
+            "loop actions (never send, never wait for an application) is the pair of regenerated code premises plus the bounded-carrier world.",
     "technique": "Lean 4 locality/non-interference theorems over endpoint models + regenerated lock-discipline obligation + correspondence",
 }
 CLAIMS["C04"] = {
@@ -75,10 +75,19 @@ CLAIMS["C05"] = {
             "complete delivery (C05_completes); plus the regenerated code-level premises C05_no_blocking_call_under_loop_lock (the window update is sent with the receiver's "
             "mutex released, so accept is always enabled) and C05_receive_loops_never_send (the loops never wait for the carrier, so bounded buffering cannot close a cycle through them). The model is tied to the real defaultSender/defaultReceiver by stepping them at verif yield points under a "
             "harness-controlled scheduler and comparing the hook-visible state after every atomic action (random schedules each run; all schedules of tiny configurations to a depth bound), "
-            "probing at every quiescent point that the receiver's mutex is free.",
+            "probing at every quiescent point that the receiver's mutex is free. "
+            "Second model (Props/C05b.lean, TunnelModel/Closed.lean): a CLOSED frame-granularity model of a whole tunnel - any number of half-streams in both directions over two carriers "
+            "of capacity K>=1 frames, any subset of the applications stalled, any workload, every schedule: carriers and receivers bounded, credit conserved per half-stream, a receive loop "
+            "is never blocked (C05_loop_never_blocked), the states without an enabled action characterised (C05_stuck_iff), no deadlock while a reading half-stream has anything left "
+            "(C05_no_deadlock), every execution finite, and C05_closed_completes / C05_outcome: every maximal execution ends with every reading half-stream complete and its window "
+            "restored and every stalled one parked behind exactly min(total, W) unread bytes - independent of the schedule and equal to the executable scheduler's answer; counter-model: "
+            "a receive loop that sends deadlocks with K=1 (C05_loop_that_sends_deadlocks). Tied to the code by the bounded-carrier world (real client + real server over Go channels of "
+            "capacity 1..64, free-running, stalled applications) whose per-half-stream byte counts are compared with the model's outcome, and by the sender-stranded monitor rule on every "
+            "line of the S-, C- and W1 worlds.",
     "design_ref": "DESIGN.md A2 (C05)",
-    "note": "Trusted: Lean kernel; sequential consistency of Go atomics/channels/cond at action granularity; FIFO carrier; the hook scheduler. One stream and direction per model "
-            "instance; independence of streams is C03.",
+    "note": "Trusted: Lean kernel; sequential consistency of Go atomics/channels/cond at action granularity; FIFO carrier; the hook scheduler. The atomic-action model has one stream and "
+            "direction per instance; the closed model is at frame granularity and abstracts frames other than data and window updates (headers, new_stream, close: finitely many, sent by "
+            "application goroutines, consumed by the loops without blocking).",
     "technique": "Lean 4 invariant + termination-measure proofs over all interleavings of an atomic-step model; hook-stepped correspondence with the real sender/receiver",
 }
 CLAIMS["C06"] = {
@@ -105,10 +114,13 @@ CLAIMS["C08"] = {
     "text": "Theorems over the server endpoint model for EVERY stimulus list: ids of created streams are pairwise strictly increasing and bounded by lastSeen "
             "(C08_ids_increasing), reused/active ids end the tunnel (C08_refuse_reused), frames for never-created ids end the tunnel (C08_never_created), frames for finished "
             "ids change nothing (C08_ignore_finished), dispatch picks exactly the descriptor named after the first slash, unary before stream (C08_dispatch); client: allocated "
-            "ids strictly increase and new_stream is the first frame of its id (C08_client_ids_increasing, C08_client_new_stream_first). " + _SRV + " " + _CLI,
+            "ids strictly increase and new_stream is the first frame of its id (C08_client_ids_increasing, C08_client_new_stream_first). Concurrent callers (L-atomic model TunnelModel/IdAlloc.lean: "
+            "n goroutines, actions lock / allocate (possibly failing after the increment) / send / unlock, EVERY schedule): ids reach the wire strictly increasing and distinct "
+            "(C08_concurrent_ids_increasing), counter-example without the lock (C08_unguarded_out_of_order); the model's premise is regenerated from the sources and decided by the kernel: the "
+            "new_stream Send in newStream and the only write of lastStreamID hold streamCreation (C08_allocation_and_send_under_streamCreation). " + _SRV + " " + _CLI + " Plus the id-order world: "
+            "2-8 goroutines start RPCs concurrently on the real channel with random delays between allocation and send; the wire order is compared with the model's answer.",
     "design_ref": "DESIGN.md A2 (C08)",
-    "note": "Trusted: Lean kernel, harness and differ, quiescence granularity (L-frame). Concurrent NewStream calls are serialised by streamCreation (C15 table row); their "
-            "interleavings below that lock are not modelled.",
+    "note": "Trusted: Lean kernel, harness and differ, quiescence granularity (L-frame) for the endpoint models; the extractor for the lock premise of the id-allocation model.",
     "technique": "Lean 4 invariant over all stimulus lists of an endpoint model + step-exact correspondence with the real endpoints",
 }
 CLAIMS["C09"] = {
@@ -144,9 +156,13 @@ CLAIMS["C12"] = {
     "text": "Theorems over the registry model: after every legal sequence of open/close/pick events the registry's pools hold exactly the open tunnels, per key (C12_exact, "
             "C12_all), a routed RPC goes to an open tunnel of the right key (C12_routed_open, C12_routed_right_key), unavailable iff no tunnel for the key (C12_unavailable_iff, "
             "C12_ready), and picks rotate fairly: n consecutive picks over n tunnels are a permutation (C12_round_robin, _key, _all). Tied to the code by the registry world: real "
-            "TunnelServiceHandler + ReverseTunnelServer over grpc-go on bufconn, random open/close/pick sequences, AllReverseTunnels/KeyAsChannel/Ready compared with the model.",
+            "TunnelServiceHandler + ReverseTunnelServer over grpc-go on bufconn, random open/close/pick sequences, AllReverseTunnels/KeyAsChannel/Ready compared with the model; WaitForReady over the channel-identity model (C12_no_lost_wakeup, C12_wait_iff_ready, C12_latch, C12_waiters_refine_pool); "
+            "and the free-running registry world: per round a fresh affinity key, 2-4 registrations released together by a barrier inside the AffinityKey callback, optionally a concurrent "
+            "WaitForReady; once all open callbacks fired the registry must be exactly those tunnels (enumeration, Ready, n routed RPCs reach n distinct tunnels, waiter released, nothing left "
+            "after they end) - the model's answer is independent of the registration order.",
     "design_ref": "DESIGN.md A2 (C12)",
-    "note": "Trusted: Lean kernel; API-granular model (one step = one API event at quiescence); grpc-go. The two registration steps of openReverseTunnel are below the model's granularity.",
+    "note": "Trusted: Lean kernel; API-granular model (one step = one API event at quiescence); grpc-go. The two registration steps of openReverseTunnel are below the model's granularity: covered by the scenario at the registration yield point, the free-running world, and the "
+            "regenerated obligation C15_one_critical_section_per_function (pool look-up and creation in one critical section).",
     "technique": "Lean 4 refinement of the registry to the set of open tunnels + correspondence against real grpc-go",
 }
 CLAIMS["C13"] = {
@@ -177,7 +193,7 @@ CLAIMS["C15"] = {
             "executions with mutexes, close/receive and go: common lock, publication and construction each imply happens-before, and a consistently protected variable has no "
             "data race in any well-formed execution (C15_hb_of_common_lock, C15_hb_of_publication, C15_hb_of_go, C15_race_free_of_discipline); (b) on every run, that the CURRENT "
             "sources obey the discipline: the go/ast extractor regenerates every access to every field of every shared struct with the locks held there (inter-procedurally, defers "
-            "unwound LIFO), and C15_discipline / C15_blocking_calls_hold_no_loop_lock / C15_receive_loops_never_send / C15_lock_order_acyclic are decided by the kernel over that table (decide +kernel). "
+            "unwound LIFO), and C15_discipline / C15_blocking_calls_hold_no_loop_lock / C15_receive_loops_never_send / C15_waits_hold_no_lock / C15_one_critical_section_per_function (no function splits its accesses to lock-protected data over two critical sections of that lock, nothing written under a read lock: atomicity of check-then-act) / C15_lock_order_acyclic are decided by the kernel over that table (decide +kernel). "
             "A removed or narrowed lock, an unlocked access, a new unprotected field, a callback under a loop lock or a lock-order cycle breaks the obligation and the offending rows are printed. "
             "Search for failing inputs: race-instrumented stress of real grpc-go tunnels with random delays at the yield points (Trailer()/call-option reads right after completion, "
             "Close/Stop during RPCs, registry queries during open/close).",
